@@ -263,17 +263,30 @@ class C13(Prop):
     def gen(self, tier, R):
         return [(c, 'release') for c in builtins.gen_c13(tier, R)]
 
+    # what the known finding can explain: failures of transitivity and of the laws that presuppose it - nothing else
+    EXPLAINED = ('transitive', 'bound_all_others', 'greater_than_its_successor', 'sorting_again')
+
     def known(self, line, k, o):
-        if o.get('nan') == 'true':
-            return 'not_tame_nan'
-        if o.get('mix') == 'true':
-            return 'not_tame_numeric_string'
+        from . import reford
         el = core.top_elems(line)
-        args = el[4:] if el and el[0] == 'bi' else (el[2:] if el and el[0] in ('sortlaws', 'ord3') else None)
-        if args is not None and builtins.is_nontame_arr(args):
-            txt = ' '.join(args)
-            return 'not_tame_nan' if '(n 9221120237041090560)' in txt else 'not_tame_numeric_string'
-        return None
+        if not el:
+            return None
+        if el[0] == 'bi':
+            if el[3] not in (core.s('sort'), core.s('max'), core.s('min'), core.s('between')):
+                return None
+            cls = reford.inconsistency_class(el[4:], smart=el[3] != core.s('between'))
+        elif el[0] == 'sortlaws':
+            cls = reford.inconsistency_class(el[2:], smart=True)
+        elif el[0] == 'ord3':
+            cls = reford.inconsistency_class(el[2:], smart=False)
+        else:
+            return None
+        if cls is None:
+            return None
+        why = o.get('why', '-')
+        if why not in ('-', '', None) and not all(any(x in r for x in self.EXPLAINED) for r in why.split(';')):
+            return None
+        return 'not_tame_nan' if cls == 'nan' else 'not_tame_numeric_string'
 
 
 class C09(Prop):
